@@ -275,7 +275,7 @@ impl QStreamId {
 
 impl DriverDatagram {
 //@ extract wtransport/src/datagram.rs >> impl Datagram >> fn header_size
-//@ subst `H3Datagram::header_size` => `Datagram::header_size`
+//@ rename `H3Datagram::header_size` => `Datagram::header_size`
 //@ requires session_id.wf()
 //@ ensures r as int == varint_len(session_id.val() / 4), 1 <= r <= 8
 //@ end
